@@ -106,9 +106,7 @@ func TestC03_SameConfiguration(t *testing.T) {
 			c.Guard("native Decode", func() { nVal, nDiags = hcldec.Decode(nf.Body, spec, nil) })
 			var nVal2 cty.Value
 			var nDiags2 hcl.Diagnostics
-			if noTemplates {
-				c.Guard("native Decode(ctx)", func() { nVal2, nDiags2 = hcldec.Decode(nf.Body, spec, &hcl.EvalContext{}) })
-			}
+			c.Guard("native Decode(ctx)", func() { nVal2, nDiags2 = hcldec.Decode(nf.Body, spec, &hcl.EvalContext{}) })
 			devices := map[string]bool{}
 			var jsons []string
 			for k := 0; k < 4; k++ {
@@ -142,14 +140,28 @@ func TestC03_SameConfiguration(t *testing.T) {
 					c.Set("failing_json", js)
 					c.Failf("decode-value", "encoding %d: native decodes to %#v, JSON to %#v", k, nVal, jVal)
 				}
-				if noTemplates {
-					var jVal2 cty.Value
-					var jDiags2 hcl.Diagnostics
-					c.Guard("json Decode(ctx)", func() { jVal2, jDiags2 = hcldec.Decode(jf.Body, spec, &hcl.EvalContext{}) })
-					if jDiags2.HasErrors() != nDiags2.HasErrors() || (!nDiags2.HasErrors() && !jVal2.RawEquals(nVal2)) {
-						c.Set("failing_json", js)
-						c.Failf("decode-full-expression-mode", "encoding %d with an empty non-nil context: native %#v (err=%v), JSON %#v (err=%v: %s)", k, nVal2, nDiags2.HasErrors(), jVal2, jDiags2.HasErrors(), diagStr(jDiags2))
+				// full-expression mode (non-nil context): strings are templates, so the JSON file
+				// is written with "${" / "%{" escaped, as the native renderer escapes them
+				js2, jf2 := js, jf
+				if !noTemplates {
+					var ok2 bool
+					js2, _, ok2 = render.JSONFile(body, rchooser{t}, true, true, blockAttrsTypes(ms)...)
+					if !ok2 {
+						c.Failf("harness-json", "body is not JSON-expressible")
 					}
+					var jd2 hcl.Diagnostics
+					jf2, jd2 = hcljson.Parse([]byte(js2), "t.json")
+					if jd2.HasErrors() {
+						c.Failf("json-parse-error", "escaped encoding %d does not parse: %s", k, diagStr(jd2))
+					}
+					c.Class("full_expression_mode_with_escapes")
+				}
+				var jVal2 cty.Value
+				var jDiags2 hcl.Diagnostics
+				c.Guard("json Decode(ctx)", func() { jVal2, jDiags2 = hcldec.Decode(jf2.Body, spec, &hcl.EvalContext{}) })
+				if jDiags2.HasErrors() != nDiags2.HasErrors() || (!nDiags2.HasErrors() && !jVal2.RawEquals(nVal2)) {
+					c.Set("failing_json", js2)
+					c.Failf("decode-full-expression-mode", "encoding %d with an empty non-nil context: native %#v (err=%v), JSON %#v (err=%v: %s)", k, nVal2, nDiags2.HasErrors(), jVal2, jDiags2.HasErrors(), diagStr(jDiags2))
 				}
 			}
 			featClasses(c, "json_", devices)
